@@ -386,6 +386,7 @@ fn structure_edits(doc: &Value) -> Vec<Edit> {
     // and with the file's first entry on a continuous page
     if n_cells >= 6 {
         let pm = |i: usize| format!("public_input.public_memory[{}].page", i);
+        let pa = |i: usize| format!("public_input.public_memory[{}].address", i);
         let (a, b, c) = (n_cells - 3, n_cells - 2, n_cells - 1);
         out.push(Edit::SetMany(vec![(pm(b), json!(1)), (pm(c), json!(2))]));
         out.push(Edit::SetMany(vec![(pm(b), json!(2)), (pm(c), json!(1))]));
@@ -393,8 +394,19 @@ fn structure_edits(doc: &Value) -> Vec<Edit> {
         out.push(Edit::SetMany(vec![(pm(a), json!(2)), (pm(b), json!(1)), (pm(c), json!(2))]));
         out.push(Edit::SetMany(vec![(pm(0), json!(1)), (pm(c), json!(2))]));
         out.push(Edit::SetMany(vec![(pm(0), json!(2)), (pm(1), json!(1))]));
+        // two pages whose cells alternate in the file while each page is contiguous in address
+        {
+            let d = n_cells - 4;
+            out.push(Edit::SetMany(vec![
+                (pm(d), json!(1)), (pa(d), json!(100000)), (pm(a), json!(2)), (pa(a), json!(200000)),
+                (pm(b), json!(1)), (pa(b), json!(100001)), (pm(c), json!(2)), (pa(c), json!(200001)),
+            ]));
+            out.push(Edit::SetMany(vec![
+                (pm(d), json!(2)), (pa(d), json!(200000)), (pm(a), json!(1)), (pa(a), json!(100000)),
+                (pm(b), json!(2)), (pa(b), json!(200001)), (pm(c), json!(1)), (pa(c), json!(100001)),
+            ]));
+        }
         // a continuous page whose addresses cross 2^32 (contiguous over the integers, wrapping in 32-bit words)
-        let pa = |i: usize| format!("public_input.public_memory[{}].address", i);
         out.push(Edit::SetMany(vec![(pm(b), json!(1)), (pa(b), json!(4294967295u64)), (pm(c), json!(1)), (pa(c), json!(0))]));
         out.push(Edit::SetMany(vec![(pm(b), json!(1)), (pa(b), json!(4294967295u64)), (pm(c), json!(1)), (pa(c), json!(4294967296u64))]));
         out.push(Edit::SetMany(vec![(pm(b), json!(1)), (pa(b), json!(4294967294u64)), (pm(c), json!(1)), (pa(c), json!(4294967295u64))]));
